@@ -28,7 +28,7 @@ def _note(n):
     return "" if n in (None, "") else str(n)
 
 
-PREFIXES = ["= ", "== ", "="]     # the grouping prefixes in play (str.startswith is recorded, not interpreted)
+PREFIXES = ["= ", "== ", "=", "=== "]     # the grouping prefixes in play (str.startswith is recorded, not interpreted)
 
 
 def leaf(x):
@@ -117,15 +117,17 @@ def report_pairs(report, acl_lines):
 
 # ------------------------------------------------------------------ execution of one history
 
+BASE = dict(tid=0, exc="", ret_int=0, ret_num=[0, 0], flag=False, plat="", s=[0, 0], d=[0, 0], prefix="", perm=[], idx=0,
+            skip=[], pairs=[], typ="", lines_distinct=True, same_as_shading_before=True, expect_empty=False, twin_text_equal=True,
+            twin_data_equal=True, shared_mutables=0, recorded=False)
+
 def exec_history(job):
     from cisco_acl import Acl, Ace, Remark, Address
     kw = dict(platform=job["plat"], version=job["ver"], port_nr=job.get("port_nr", False), protocol_nr=job.get("protocol_nr", False),
               max_ncwb=job.get("max_ncwb", 16))
     vm = job["vmajor"]
     events = []
-    base = dict(tid=job["tid"], exc="", ret_int=0, ret_num=[0, 0], flag=False, plat="", s=[0, 0], d=[0, 0], prefix="", perm=[], idx=0,
-                skip=[], pairs=[], typ="", lines_distinct=True, same_as_shading_before=True, expect_empty=False, twin_text_equal=True,
-                twin_data_equal=True, shared_mutables=0)
+    base = dict(BASE, tid=job["tid"])
     e = dict(base, i=0, act="New")
     try:
         acl = Acl("\n".join([job["header"]] + job["lines"]), group_by=job.get("group_by", ""), note=job.get("note", ""), **kw)
